@@ -7,6 +7,11 @@ After every operation the raw state held by the editor is read and validated aga
 model (mc/c13_model.py: exact positions, admissible refinements per face/cell, choices left open by the
 documentation resolved against the observation); after the block the mesh handed back is checked clause by
 clause, and so is the object that was passed in.
+
+Two further dimensions of every editing block: (configuration) the same block with the completion switches of
+mouette.config off while it runs - what is handed back is then exactly what the operations wrote; (history) blocks
+that are left by an exception after 0, 1 or 2 operations - the object passed in must still be unchanged or a valid
+refinement whose connectivity answers describe its own containers.
 """
 from __future__ import annotations
 import itertools, pickle
@@ -18,7 +23,8 @@ from mc.surf_oracle import SurfOracle
 ID = "C13"
 TECHNIQUE = ("explicit-state BFS over operation sequences inside one editing block of the real Surface/VolumeSubdivision "
              "objects (and split_edge call sequences), for every mesh of bounded-exhaustive families x {connectivity "
-             "queried before, not queried}, vs an exact reference refinement model + independent validity/topology/"
+             "queried before, not queried} x {completion switches on, off} x {block completed, left by the caller's exception, "
+             "left by a rejected argument}, vs an exact reference refinement model + independent validity/topology/"
              "connectivity oracles")
 RULE = ("inputs: labelled oriented manifold complexes SURF (triangle, quad, mixed, pentagon), ZOO specimens, all conforming "
         "tetrahedral complexes TET(<=5) in two cell orientations, all graphs GRAPH(<=4) as polylines; per input a BFS over "
@@ -26,8 +32,12 @@ RULE = ("inputs: labelled oriented manifold complexes SURF (triangle, quad, mixe
         "subdivide_triangles_3quads, subdivide_triangles_6(1|2), standalone split_double_boundary_edges_triangles; volume: "
         "split_cell_as_fan(c), split_tet_from_face_center(f); polyline: split_edge(e)), every sequence being one complete "
         "editing block on a fresh object, deduplicated for expansion on the raw state held by the editor; each sequence is "
-        "run with and without connectivity queried before; a case = one distinct (input, raw state reached); non-trivial = "
-        "at least one element was refined")
+        "run with and without connectivity queried before, and once more with config.complete_edges_from_faces off (volume: "
+        "edge completion off, face and edge completion off) during the block; per input the empty sequence, the first explored "
+        "single operation of every entry point and the first explored pair of every class are run again as blocks LEFT BY AN "
+        "EXCEPTION (raise in the caller's code; an operation called with index == number of elements), queried before or "
+        "not; polyline: split_edge with the index of an edge that does not exist after every explored history; "
+        "a case = one distinct (input, raw state reached); non-trivial = at least one element was refined")
 ASSUMPTIONS = [
     "inputs are oriented manifold polygon complexes / conforming tetrahedral complexes / simple graphs within the size bounds; larger meshes only through the ZOO specimens; coordinates: integer moment curve (generic) for SURF/TET/GRAPH, the specimens' own coordinates for ZOO",
     "the raw state is read from editor.mesh after every operation (needed to give face/cell indices a meaning: the statement does not fix the numbering of new elements); in the oracle a vertex is identified by its exact affine combination of the original vertices, matched to the observed vertex by position (tolerance 1e-9 x coordinate scale); a sequence in which two different centres coincide within that tolerance is filtered and counted (filtered_coincident_refinement_points)",
@@ -38,6 +48,8 @@ ASSUMPTIONS = [
     "'queried before' = every accessor of those tables called once (whole domain for per-argument caches) + is_triangular/is_quad; a clause violated without queried connectivity is not reported again for the queried run of the same sequence, so an input class ':queried_before' means: only when queried",
     "split_double_boundary_edges_triangles is only called on triangle meshes (its documentation speaks of triangles); attributes (e.g. the hard_edges flags that loop_subdivision's explicit edge list acquires in prepare()) are outside the statement and not compared",
     "after an operation raised or failed a clause, the remaining clauses of that sequence are not evaluated and the sequence is not extended",
+    "configuration dimension: the mesh is built with the default configuration (complete edge / face lists); the switches are off from just before the block is entered until it has been left and are restored in a finally. With completion off nothing promises that the edge list covers every side: the unchanged library leaves the diagonal of a split quad, every edge of the 1-to-3 / 1-to-6 refinements, every edge of the volume operations and the inner faces of split cells to the completion step (counted per operation, not judged). Judged: vertices/faces/cells independent of the switches; exit hands back exactly the edges (faces) the operations wrote; no duplicate, unsorted or foreign edge/face; corners match; the sides of a vertex created by the last operation have their edges all or none ('never half-updated'); split_tet_from_face_center leaves its documented three sub-triangles in place of the split one; connectivity answers only when the edge list covers every side (accessor domains capped at 30)",
+    "history dimension: a block left by an exception. The unchanged library rebuilds the object passed in whenever the block is left (its __exit__ ignores the exception and lets it propagate), so the object equals the result of the completed block of the operations done so far; demanded is only the statement: unchanged or equal to that result, all connectivity answers describing its own containers. An index equal to the number of faces/cells/edges is rejected with IndexError before anything is written by every operation of the unchanged library; the rejection itself is not demanded (an accepted index is counted and skipped), nor is the propagation of the exception (counted)",
 ]
 BOUNDS = {
     "quick": ("refined meshes of more than 160 faces are not produced; surface: one member per isomorphism class of SURF triangles n<=5, triangle+quad "
@@ -46,13 +58,17 @@ BOUNDS = {
               "16 ZOO specimens with weight <= 1 (+ the two weight-2 events); face arguments: first face of each arity and the last face; "
               "volume: TET(4), TET(5) (27 complexes), positively oriented cells: sequences <= 2, arguments: every cell, every raw face (second step: "
               "representatives + elements touched by the first), cells listed sorted (mixed orientation): single operations; polyline: GRAPH(2..4) "
-              "(71 graphs with an edge), split_edge sequences <= 3 over every current edge; accessor domains capped at 60 arguments"),
+              "(71 graphs with an edge), split_edge sequences <= 3 over every current edge; accessor domains capped at 60 arguments; "
+              "completion switches off: every explored surface / volume sequence once (volume: two switch settings); blocks left by an "
+              "exception: per input <= 1 + 6 + 4 (surface) / 1 + 2 + 1 (volume) prefixes x {caller, rejected TF, rejected FAN | rejected "
+              "CFAN, rejected FSPLIT} x {queried, not}; polyline: one rejected call per expanded history (<= 2 splits) x {queried, not}"),
     "thorough": ("refined meshes of more than 400 faces are not produced; surface: weight <= 3 on the classes of SURF triangles n<=5, triangle+quad n=4, "
                  "pentagons (13); weight <= 2 on every class, on every labelled complex on <= 4 vertices and on every single-transposition relabeling of the "
                  "triangle and pentagon classes on 5 vertices (142); weight <= 1 on every labelled triangle / pentagon complex on 5 vertices and every "
                  "single-transposition relabeling of the triangle+quad / polygon classes (632); 33 ZOO specimens at weight <= 2 (<= 12 faces) or 1; face "
                  "arguments: every face when the state has <= 6 faces; volume: sequences <= 2 with every cell and face argument at both steps, both cell "
-                 "orientations; <= 3 with representatives (positive orientation); polyline: split_edge sequences <= 4; accessor domains capped at 200 arguments"),
+                 "orientations; <= 3 with representatives (positive orientation); polyline: split_edge sequences <= 4; accessor domains capped at 200 arguments; "
+                 "completion switches off and blocks left by an exception: as in quick, over the thorough sequences (abandoned prefixes: <= 2 operations)"),
 }
 
 
@@ -142,7 +158,7 @@ def tasks(tier):
     common = {"fam": "surf", "cap": cap, "max_faces": max_faces, "all_faces": tier == "thorough"}
     out = []
     ins = _surf_inputs(tier)
-    for w, B in ((3, 1), (2, 2), (1, 12)):
+    for w, B in ((3, 1), (2, 1 if tier == "quick" else 2), (1, 12)):
         lst = [x for x in ins if x[3] == w]
         for i in range(0, len(lst), B):
             out.append(dict(common, meshes=lst[i:i + B]))
@@ -367,29 +383,74 @@ def _where(ex, cls_name):
     return None if name is None else f"{cls_name}.{name}"
 
 
-def _run_surf_block(cx: SurfCtx, seq, queried):
-    """One complete editing block on a fresh mesh. Returns dict(m, ed, pre, states, exc)."""
+class _Abandon(Exception):
+    """the caller's own exception, raised inside an editing block"""
+
+
+SWITCHES = ("complete_edges_from_faces", "complete_faces_from_cells")
+
+
+def _set_switches(M, cfg):
+    """process-global completion switches of mouette.config; always paired with _restore_switches in a finally"""
+    saved = {k: getattr(M.config, k) for k in SWITCHES}
+    for k, v in (cfg or {}).items():
+        if k not in SWITCHES:
+            raise ValueError(k)
+        setattr(M.config, k, v)
+    return saved
+
+
+def _restore_switches(M, saved):
+    for k, v in saved.items():
+        setattr(M.config, k, v)
+
+
+def _run_surf_block(cx: SurfCtx, seq, queried, cfg=None, leave=None):
+    """One editing block on a fresh mesh (built with the default configuration). Returns dict(m, ed, pre, states, exc).
+    cfg: completion switches in force from just before the block is entered until it has been left;
+    leave: None (the block completes) | 'caller' (the caller raises its own exception after the operations of seq) |
+    'TF' / 'FAN' (that operation is called with the index of a face that does not exist: == number of faces)."""
     from mouette.mesh.subdivision import SurfaceSubdivision
     m = cx.build()
     if queried:
         cx.warm(m)
     pre = _snap_surf(m)
     states, exc, shared, where = [], None, None, None
+    left = {"mode": None, "exc": None, "propagated": None}
     ed = SurfaceSubdivision(m)
+    saved = _set_switches(cx.M, cfg)
     try:
-        with ed:
-            for kind, arg in seq:
-                _apply_surf(ed, kind, arg)
-                states.append(_raw_obs(ed.mesh))
-            shared = ed.mesh.faces is m.faces and ed.mesh.vertices is m.vertices
-    except Exception as ex:   # noqa
-        exc = (len(states), type(ex).__name__, str(ex)[:200])
-        where = _where(ex, "SurfaceSubdivision")
-    return {"m": m, "ed": ed, "pre": pre, "states": states, "exc": exc, "shared": shared, "where": where}
+        try:
+            with ed:
+                for kind, arg in seq:
+                    _apply_surf(ed, kind, arg)
+                    states.append(_raw_obs(ed.mesh))
+                shared = ed.mesh.faces is m.faces and ed.mesh.vertices is m.vertices
+                if leave == "caller":
+                    left["mode"], left["exc"] = "caller", _Abandon("the caller leaves the block")
+                    raise left["exc"]
+                elif leave is not None:
+                    left["arg"] = len(ed.mesh.faces)
+                    try:
+                        _apply_surf(ed, leave, left["arg"])
+                        left["mode"] = "accepted"
+                    except Exception as ex0:   # noqa
+                        left["mode"], left["exc"] = "rejected", ex0
+                        raise
+        except Exception as ex:   # noqa
+            exc = (len(states), type(ex).__name__, str(ex)[:200])
+            where = _where(ex, "SurfaceSubdivision")
+            left["propagated"] = ex is left["exc"]
+    finally:
+        _restore_switches(cx.M, saved)
+    left["exc"] = None if left["exc"] is None else type(left["exc"]).__name__
+    return {"m": m, "ed": ed, "pre": pre, "states": states, "exc": exc, "shared": shared, "where": where, "left": left}
 
 
-def _validity_surface(s, n):
-    """independent structural validity of a handed-back surface: list of labels"""
+def _validity_surface(s, n, completed=True):
+    """independent structural validity of a handed-back surface: list of labels.
+    completed=False (the block ran with config.complete_edges_from_faces off, nothing adds the edges the operations
+    did not write): the edge list need not cover every side, but an edge must still be the side of a face"""
     bad = []
     Fl, E, (ce, ca) = s["F"], s["E"], s["FC"]
     if any(len(f) < 3 or any(v < 0 or v >= n for v in f) for f in Fl):
@@ -405,8 +466,10 @@ def _validity_surface(s, n):
             bad.append("edge_not_sorted")
         if len(set(tuple(sorted(e)) for e in E)) != len(E):
             bad.append("duplicate_edge")
-        if set(tuple(sorted(e)) for e in E) != F.undirected_edges(Fl):
+        if completed and set(tuple(sorted(e)) for e in E) != F.undirected_edges(Fl):
             bad.append("edges_are_not_the_sides_of_the_faces")
+        if not completed and not set(tuple(sorted(e)) for e in E) <= F.undirected_edges(Fl):
+            bad.append("edge_that_is_not_the_side_of_a_face")
     if ce != [v for f in Fl for v in f] or ca != [i for i, f in enumerate(Fl) for _ in f]:
         bad.append("face_corners_inconsistent")
     return bad
@@ -454,7 +517,8 @@ def _check_surface_result(cx: SurfCtx, seq, Rm, last_obs, Pex, callee, cls):
     return s
 
 
-def _check_surface_input_object(cx: SurfCtx, seq, run, sres, queried, callee, suppress=()):
+def _check_surface_input_object(cx: SurfCtx, seq, run, sres, queried, callee, suppress=(), sub="C13.surf.", cls_prefix="",
+                                always_eval=False, extra=None):
     """the object passed in: unchanged or equal to the result, and its caches answer for its own containers.
     Returns the set of clauses reported; clauses in `suppress` (already reported for the same sequence without
     queried connectivity) are not reported again, so that a 'queried_before' class means: ONLY when queried."""
@@ -462,11 +526,12 @@ def _check_surface_input_object(cx: SurfCtx, seq, run, sres, queried, callee, su
     done = set()
     m = run["m"]
     replaced = "containers_replaced" if any(k in S_REPLACING for k, _ in seq) else "edited_in_place"
-    cls = f"{replaced}:{'queried_before' if queried else 'not_queried'}"
+    cls = f"{cls_prefix}{replaced}:{'queried_before' if queried else 'not_queried'}"
+    extra = extra or {}
     o = call(_snap_surf, m)
     rep.evaluations += 1
     if not o.ok:
-        rep.violation("C13.surf.input_object", callee, "side_effect:input_containers_unreadable", cls, cx.detail(seq, msg=o.msg)); return done
+        rep.violation(sub + "input_object", callee, "side_effect:input_containers_unreadable", cls, cx.detail(seq, msg=o.msg, **extra)); return done
     s = o.value
     if s == run["pre"]:
         state = "unchanged"
@@ -477,12 +542,12 @@ def _check_surface_input_object(cx: SurfCtx, seq, run, sres, queried, callee, su
         done.add("input_object")
         if "input_object" in suppress:
             return done
-        rep.violation("C13.surf.input_object", callee, "side_effect:input_half_updated", cls,
+        rep.violation(sub + "input_object", callee, "side_effect:input_half_updated", cls,
                       cx.detail(seq, differs_from_preimage=diff, differs_from_result=[k for k in ("V", "E", "F", "FC") if sres is None or s[k] != sres[k]],
-                                input_faces=s["F"][:8], input_face_corners=len(s["FC"][0])))
+                                input_faces=s["F"][:8], input_face_corners=len(s["FC"][0]), **extra))
         return done
-    rep.outcome("input_object", state)
-    if not (queried or state == "equal_to_result"):
+    rep.outcome("input_object" if sub == "C13.surf." else sub[4:] + "input_object", state)
+    if not (queried or state == "equal_to_result" or always_eval):
         return done
     n = len(s["V"])
     if _validity_surface(s, n) or "input_caches" in suppress:
@@ -493,8 +558,153 @@ def _check_surface_input_object(cx: SurfCtx, seq, run, sres, queried, callee, su
     if fails:
         done.add("input_caches")
         if "input_caches" not in suppress:
-            rep.violation("C13.surf.input_caches", callee, "mismatch:stale_connectivity", cls + ":" + state, cx.detail(seq, **_summary(fails)))
+            rep.violation(sub + "input_caches", callee, "mismatch:stale_connectivity", cls + ":" + state, cx.detail(seq, **_summary(fails), **extra))
     return done
+
+
+CFG_SURF = {"complete_edges_from_faces": False}
+
+
+def _pairs(E):
+    return sorted(tuple(sorted(int(x) for x in e)) for e in E)
+
+
+def _half_written(new_vertices, sides, have):
+    """new vertices some, but not all, of whose sides are in `have` (sides/have: sets of sorted index tuples)"""
+    out = []
+    for v in new_vertices:
+        inc = sorted(e for e in sides if v in e)
+        w = [e for e in inc if e in have]
+        if w and len(w) != len(inc):
+            out.append({"vertex": v, "written": [list(e) for e in w], "not_written": [list(e) for e in inc if e not in have]})
+    return out
+
+
+def _check_surface_config_off(cx: SurfCtx, seq, st, runA, sresA, callee):
+    """configuration dimension: the block of `seq` once more, on a mesh built with the default configuration, with
+    config.complete_edges_from_faces off from just before the block is entered until it has been left. Nothing then
+    adds the edges the operations did not write themselves, so what is handed back is what they wrote:
+      * vertices and faces (every step and the result) are those of the default configuration;
+      * the edge list handed back is exactly the one the operations left (exit neither adds nor loses an edge);
+      * every edge is a valid, sorted, unique pair and the side of a face (it need not cover every side: the unchanged
+        library leaves the diagonal of a split quad and all edges of the 1-to-3 refinement to the completion step -
+        counted, not judged); the sides of a vertex created by the last operation are written together or not at all;
+      * face corners match the faces; when the edge list does cover every side, every connectivity answer is judged;
+      * the object passed in equals the result."""
+    rep = cx.rep
+    sub = "C13.surf.config."
+    kind = seq[-1][0]
+    cls = "edge_completion_off:" + ("containers_replaced" if kind in S_REPLACING else "edited_in_place")
+    rep.traces += 1; rep.transitions += 1
+
+    def det(**kw):
+        return cx.detail(seq, config=dict(CFG_SURF), **kw)
+    run = _run_surf_block(cx, seq, False, cfg=CFG_SURF)
+    rep.evaluations += 7
+    if run["exc"] is not None:
+        k, exn, msg = run["exc"]
+        rep.violation(sub + "accepts", (run["where"] or callee) if k < len(seq) else "SurfaceSubdivision.__exit__", "raises:" + exn, cls, det(msg=msg)); return
+    if [(x["V"], x["F"], _pairs(x["E"])) for x in run["states"]] != [(x["V"], x["F"], _pairs(x["E"])) for x in runA["states"]]:
+        rep.violation(sub + "independent_elements", callee, "mismatch:operations_depend_on_the_completion_switch", cls, det()); return
+    Rm = run["ed"].mesh
+    if type(Rm) is not cx.M.mesh.SurfaceMesh:
+        rep.violation(sub + "hands_back_a_mesh", callee, "mismatch:type", cls, det(got=type(Rm).__name__)); return
+    o = call(_snap_surf, Rm)
+    if not o.ok:
+        rep.violation(sub + "valid_mesh", callee, "mismatch:containers_unreadable", cls, det(msg=o.msg)); return
+    s = o.value
+    if s["V"] != sresA["V"] or s["F"] != sresA["F"]:
+        rep.violation(sub + "independent_elements", "SurfaceSubdivision.__exit__", "mismatch:elements_depend_on_the_completion_switch", cls, det()); return
+    n = len(s["V"])
+    written = _pairs(run["states"][-1]["E"])
+    if _pairs(s["E"]) != written:
+        got = _pairs(s["E"])
+        rep.violation(sub + "edges_handed_back", "SurfaceSubdivision.__exit__", "mismatch:edges_added_or_lost_on_exit", cls,
+                      det(added=[list(e) for e in sorted(set(got) - set(written))][:8], lost=[list(e) for e in sorted(set(written) - set(got))][:8],
+                          n_got=len(got), n_written=len(written))); return
+    bad = _validity_surface(s, n, completed=False)
+    if bad:
+        rep.violation(sub + "valid_mesh", callee, "mismatch:" + bad[0], cls, det(labels=bad, edges=s["E"][:12])); return
+    sides, have = F.undirected_edges(s["F"]), set(written)
+    half = _half_written(range(len(st["V"]), n), sides, have)
+    if half:
+        rep.violation(sub + "edges_written_together", callee, "mismatch:new_vertex_with_some_but_not_all_of_its_edges", cls,
+                      det(half_written=half[:3], n_edges=len(written), n_sides=len(sides))); return
+    complete = have == sides
+    rep.count("config_off:surface_blocks")
+    rep.outcome("config_off:" + kind, "edge_list_complete" if complete else "sides_left_to_the_completion_step")
+    if complete:
+        rep.count("config_off:surface_connectivity_judged_edge_list_covers_every_side")
+        orc = SurfOracle(s["F"], n, s["E"])
+        tri = all(len(f) == 3 for f in s["F"]); quad = all(len(f) == 4 for f in s["F"])
+        fails = _eval_accessors(Rm, orc, cx.events, min(cx.cap, 30), rep,
+                                extra=[("is_triangular", Rm.is_triangular, tri), ("is_quad", Rm.is_quad, quad)])
+        if fails:
+            k = fails[0][2] if fails[0][2].startswith("raises:") else "mismatch:answers"
+            rep.violation(sub + "result_connectivity", callee, k, cls, det(**_summary(fails)))
+    else:
+        rep.count("config_off:surface_connectivity_not_judged_sides_left_without_edge:" + kind)
+    if Rm is run["m"]:
+        rep.outcome("config.input_object", "is_the_result")
+    else:
+        _check_surface_input_object(cx, seq, run, s, False, "SurfaceSubdivision.__exit__", sub=sub, cls_prefix="edge_completion_off:",
+                                    extra={"config": dict(CFG_SURF)})
+
+
+def _abandon_prefixes(known, replacing, entry):
+    """the sequences after which a block is abandoned: the empty one, the first explored single operation of every
+    entry point and the first explored pair of every (replaces the containers?, replaces the containers?) class"""
+    chosen, seen = [()], set()
+    for seq, st in known.items():
+        if not seq or st.get("res") is None or len(seq) > 2:
+            continue
+        key = (entry[seq[0][0]],) if len(seq) == 1 else tuple(k in replacing for k, _ in seq)
+        if key not in seen:
+            seen.add(key); chosen.append(seq)
+    return chosen
+
+
+def _check_surface_abandoned(cx: SurfCtx, known):
+    """history dimension: editing blocks that are LEFT BY AN EXCEPTION after 0, 1 or 2 operations - the caller's own
+    exception, or an operation called with the index of a face that does not exist (if the operation rejects it).
+    The unchanged library rebuilds the object passed in whenever the block is left, so the object is then the result
+    of the completed block of the operations done so far. Demanded (the statement): the object passed in is unchanged
+    or equal to that result, and every connectivity answer describes its own containers - queried before or not."""
+    rep = cx.rep
+    sub = "C13.surf.abandoned_block."
+    for seq in _abandon_prefixes(known, S_REPLACING, S_CALLEE):
+        if seq:
+            sres = known[seq]["res"]
+        else:
+            r0 = _run_surf_block(cx, (), False)
+            o0 = call(_snap_surf, r0["ed"].mesh)
+            if r0["exc"] is not None or not o0.ok:
+                rep.violation("C13.surf.hands_back_a_mesh", "SurfaceSubdivision.__exit__", "raises:" + (r0["exc"][1] if r0["exc"] else o0.exc),
+                              "block_without_operation", cx.detail(seq)); continue
+            sres = o0.value
+        for mode in (("caller", "TF", "FAN") if len(seq) < 2 else ("caller", "FAN")):
+            done = set()
+            label = ("caller_exception" if mode == "caller" else "rejected_argument") + ":" + ("no_edit" if not seq else "after_edits") + ":"
+            for queried in (False, True):
+                rep.traces += 1; rep.transitions += 1
+                run = _run_surf_block(cx, seq, queried, leave=mode)
+                left = run["left"]
+                if left["mode"] is None:
+                    raise AssertionError(f"replayed prefix raised on {cx.name} {seq}: {run['exc']}")
+                extra = {"block_left_by": "raise in the caller's code" if mode == "caller" else f"{S_CALLEE[mode]}({left.get('arg')}) - no such face",
+                         "exception": left["exc"], "connectivity_queried_before": queried}
+                if left["mode"] == "accepted":      # nothing promises a rejection: the block simply completed
+                    rep.outcome("leave:" + mode, "accepted"); rep.count("abandoned:nonexistent_index_accepted"); continue
+                rep.outcome("leave:" + mode, "raise:" + str(left["exc"]))
+                rep.count("abandoned:surface_blocks")
+                rep.flag("abandoned_surface_%d_%s" % (len(seq), "caller" if mode == "caller" else "rejected"))
+                if run["exc"] is None:
+                    rep.count("abandoned:exception_did_not_propagate")       # outside the statement
+                elif not left["propagated"]:
+                    rep.violation(sub + "hands_back_a_mesh", "SurfaceSubdivision.__exit__", "raises:" + run["exc"][1], label + ("queried_before" if queried else "not_queried"),
+                                  cx.detail(seq, msg=run["exc"][2], **extra)); continue
+                done = _check_surface_input_object(cx, seq, run, sres, queried, "SurfaceSubdivision.__exit__", done, sub=sub, cls_prefix=label,
+                                                   always_eval=True, extra=extra)
 
 
 def explore_surface(cx: SurfCtx):
@@ -566,6 +776,9 @@ def explore_surface(cx: SurfCtx):
                     opcls = "+".join(sorted(set(k for k, _ in seq2))) + ":" + cx.icls
                     sres = _check_surface_result(cx, seq2, runA["ed"].mesh, obs, Pex, callee, opcls)
                     doneA = _check_surface_input_object(cx, seq2, runA, sres, False, "SurfaceSubdivision.__exit__")
+                    after["res"] = sres
+                    if sres is not None:
+                        _check_surface_config_off(cx, seq2, st, runA, sres, callee)
             # ---- same sequence with connectivity queried before
             runB = _run_surf_block(cx, seq2, True)
             rep.evaluations += 1
@@ -591,6 +804,7 @@ def explore_surface(cx: SurfCtx):
                     rep.case((cx.name, key))
                     if sum(S_WEIGHT[k] for k, _ in seq2) < cx.depth:
                         frontier.append(seq2)
+    _check_surface_abandoned(cx, known)
     rep.count("surface_inputs")
     rep.flag("closed" if cx.closed else "bordered")
     for f in cx.F0:
@@ -693,27 +907,50 @@ class VolCtx:
 V_CALLEE = {"CFAN": "VolumeSubdivision.split_cell_as_fan", "FSPLIT": "VolumeSubdivision.split_tet_from_face_center"}
 
 
-def _run_vol_block(cx: VolCtx, seq, queried):
+def _run_vol_block(cx: VolCtx, seq, queried, cfg=None, leave=None):
+    """see _run_surf_block; leave: None | 'caller' | 'CFAN' / 'FSPLIT' (called with index == number of cells / raw faces)"""
     from mouette.mesh.subdivision import VolumeSubdivision
     m = cx.build()
     if queried:
         cx.warm(m)
     pre = _snap_vol(m)
     states, exc, where = [], None, None
+    left = {"mode": None, "exc": None, "propagated": None}
     ed = VolumeSubdivision(m)
+    saved = _set_switches(cx.M, cfg)
     try:
-        with ed:
-            for kind, arg in seq:
-                if kind == "CFAN": ed.split_cell_as_fan(arg)
-                else: ed.split_tet_from_face_center(arg)
-                states.append({"V": _pts(ed.mesh.vertices), "C": _rows(ed.mesh.cells), "F": _rows(ed.mesh.faces)})
-    except Exception as ex:   # noqa
-        exc = (len(states), type(ex).__name__, str(ex)[:200])
-        where = _where(ex, "VolumeSubdivision")
-    return {"m": m, "ed": ed, "pre": pre, "states": states, "exc": exc, "where": where}
+        try:
+            with ed:
+                for kind, arg in seq:
+                    if kind == "CFAN": ed.split_cell_as_fan(arg)
+                    else: ed.split_tet_from_face_center(arg)
+                    states.append({"V": _pts(ed.mesh.vertices), "C": _rows(ed.mesh.cells), "F": _rows(ed.mesh.faces),
+                                   "E": [tuple(int(x) for x in e) for e in ed.mesh.edges]})
+                if leave == "caller":
+                    left["mode"], left["exc"] = "caller", _Abandon("the caller leaves the block")
+                    raise left["exc"]
+                elif leave is not None:
+                    left["arg"] = len(ed.mesh.cells) if leave == "CFAN" else len(ed.mesh.faces)
+                    try:
+                        if leave == "CFAN": ed.split_cell_as_fan(left["arg"])
+                        else: ed.split_tet_from_face_center(left["arg"])
+                        left["mode"] = "accepted"
+                    except Exception as ex0:   # noqa
+                        left["mode"], left["exc"] = "rejected", ex0
+                        raise
+        except Exception as ex:   # noqa
+            exc = (len(states), type(ex).__name__, str(ex)[:200])
+            where = _where(ex, "VolumeSubdivision")
+            left["propagated"] = ex is left["exc"]
+    finally:
+        _restore_switches(cx.M, saved)
+    left["exc"] = None if left["exc"] is None else type(left["exc"]).__name__
+    return {"m": m, "ed": ed, "pre": pre, "states": states, "exc": exc, "where": where, "left": left}
 
 
-def _validity_volume(s):
+def _validity_volume(s, faces_completed=True, edges_completed=True):
+    """faces_completed / edges_completed False: the block ran with that completion switch off - the list need not
+    cover every triangle / side of the cells, but must not contain anything else (and no duplicate)"""
     n = len(s["V"])
     C, Fl, E = s["C"], s["F"], s["E"]
     if any(len(c) != 4 or len(set(c)) != 4 or any(v < 0 or v >= n for v in c) for c in C):
@@ -726,8 +963,10 @@ def _validity_volume(s):
         fs = [tuple(sorted(f)) for f in Fl]
         if len(set(fs)) != len(fs):
             bad.append("duplicate_face")
-        if set(fs) != tris:
+        if faces_completed and set(fs) != tris:
             bad.append("faces_are_not_the_triangles_of_the_cells")
+        if not faces_completed and not set(fs) <= tris:
+            bad.append("face_that_is_not_a_triangle_of_a_cell")
     sides = set(tuple(sorted(e)) for c in C for e in itertools.combinations(c, 2))
     if any(len(e) != 2 for e in E):
         bad.append("edge_not_a_pair")
@@ -736,8 +975,10 @@ def _validity_volume(s):
             bad.append("edge_not_sorted")
         if len(set(tuple(sorted(e)) for e in E)) != len(E):
             bad.append("duplicate_edge")
-        if set(tuple(sorted(e)) for e in E) != sides:
+        if edges_completed and set(tuple(sorted(e)) for e in E) != sides:
             bad.append("edges_are_not_the_sides_of_the_cells")
+        if not edges_completed and not set(tuple(sorted(e)) for e in E) <= sides:
+            bad.append("edge_that_is_not_the_side_of_a_cell")
     if bad:
         return bad
     if s["FC"][0] != [v for f in Fl for v in f] or s["FC"][1] != [i for i, f in enumerate(Fl) for _ in f]:
@@ -745,6 +986,8 @@ def _validity_volume(s):
     if s["CC"][0] != [v for c in C for v in c] or s["CC"][1] != [i for i, c in enumerate(C) for _ in c]:
         bad.append("cell_corners_inconsistent")
     cf = s["CF"][0]
+    if not faces_completed and not cf and not s["CF"][1] and set(tuple(sorted(f)) for f in Fl) != tris:
+        return bad          # no cell -> face table when some triangle of a cell is not in the face list
     if len(cf) != 4 * len(C) or any(not (0 <= cf[4 * i + k] < len(Fl)) or set(Fl[cf[4 * i + k]]) != set(c[:k] + c[k + 1:])
                                      for i, c in enumerate(C) for k in range(4)):
         bad.append("cell_faces_inconsistent")
@@ -780,16 +1023,17 @@ def _check_volume_result(cx: VolCtx, seq, Rm, last_obs, Pex, callee, cls):
     return s
 
 
-def _check_volume_input_object(cx: VolCtx, seq, run, sres, queried, suppress=()):
+def _check_volume_input_object(cx: VolCtx, seq, run, sres, queried, suppress=(), sub="C13.vol.", cls_prefix="", extra=None):
     rep = cx.rep
     done = set()
     m = run["m"]
+    extra = extra or {}
     callee = "VolumeSubdivision.__exit__"
-    cls = f"edited_in_place:{'queried_before' if queried else 'not_queried'}"
+    cls = f"{cls_prefix}edited_in_place:{'queried_before' if queried else 'not_queried'}"
     o = call(_snap_vol, m)
     rep.evaluations += 1
     if not o.ok:
-        rep.violation("C13.vol.input_object", callee, "side_effect:input_containers_unreadable", cls, cx.detail(seq, msg=o.msg)); return done
+        rep.violation(sub + "input_object", callee, "side_effect:input_containers_unreadable", cls, cx.detail(seq, msg=o.msg, **extra)); return done
     s = o.value
     keys = ("V", "E", "F", "FC", "C", "CC", "CF")
     if s == run["pre"]:
@@ -800,11 +1044,11 @@ def _check_volume_input_object(cx: VolCtx, seq, run, sres, queried, suppress=())
         done.add("input_object")
         if "input_object" in suppress:
             return done
-        rep.violation("C13.vol.input_object", callee, "side_effect:input_half_updated", cls,
+        rep.violation(sub + "input_object", callee, "side_effect:input_half_updated", cls,
                       cx.detail(seq, differs_from_preimage=[k for k in keys if s[k] != run["pre"][k]],
-                                differs_from_result=[k for k in keys if sres is None or s[k] != sres[k]]))
+                                differs_from_result=[k for k in keys if sres is None or s[k] != sres[k]], **extra))
         return done
-    rep.outcome("vol_input_object", state)
+    rep.outcome("vol_input_object" if sub == "C13.vol." else sub[4:] + "input_object", state)
     if _validity_volume(s) or "input_caches" in suppress:
         return done
     fails = _eval_accessors(m, cx.oracle(s), cx.events, min(cx.cap, 60), rep)
@@ -812,8 +1056,136 @@ def _check_volume_input_object(cx: VolCtx, seq, run, sres, queried, suppress=())
         if "input_caches" in suppress:
             return done
         done.add("input_caches")
-        rep.violation("C13.vol.input_caches", callee, "mismatch:stale_connectivity", cls + ":" + state, cx.detail(seq, **_summary(fails)))
+        rep.violation(sub + "input_caches", callee, "mismatch:stale_connectivity", cls + ":" + state, cx.detail(seq, **_summary(fails), **extra))
     return done
+
+
+CFG_VOL = [("edge_completion_off", {"complete_edges_from_faces": False}),
+           ("face_and_edge_completion_off", {"complete_faces_from_cells": False, "complete_edges_from_faces": False})]
+
+
+def _triples(Fl):
+    return sorted(tuple(sorted(int(x) for x in f)) for f in Fl)
+
+
+def _check_volume_config_off(cx: VolCtx, seq, st, runA, sresA, callee):
+    """configuration dimension for volume blocks: config.complete_edges_from_faces off, and both completion switches
+    off, from just before the block is entered until it has been left (mesh built with the default configuration).
+    What is handed back is then what the operations wrote:
+      * vertices and cells (every step, the result) are those of the default configuration;
+      * the edge list (and, with face completion off, the face list) handed back is exactly the one the operations left;
+        with face completion on the face list is complete;
+      * no duplicate / foreign edge or face; corners match the elements; the cell -> face table is consistent, or empty
+        when a triangle of a cell has no face; the edges at the vertex created by the last operation are written
+        together or not at all;
+      * with face completion off the raw face list after split_tet_from_face_center is the documented one: the split
+        triangle replaced by its three sub-triangles ('split the triangle into three triangles'), every other face kept;
+        after split_cell_as_fan (documents cells only) the old faces, plus all six new ones or none;
+      * the object passed in equals the result.
+    Connectivity answers are not judged (the edge list never covers the sides of the new vertex: the volume operations
+    of the unchanged library write no edge)."""
+    rep = cx.rep
+    sub = "C13.vol.config."
+    kind, arg = seq[-1]
+    for label, cfg in CFG_VOL:
+        faces_on = cfg.get("complete_faces_from_cells", True)
+        cls = label
+        rep.traces += 1; rep.transitions += 1
+
+        def det(**kw):
+            return cx.detail(seq, config=dict(cfg), **kw)
+        run = _run_vol_block(cx, seq, False, cfg=cfg)
+        rep.evaluations += 8
+        if run["exc"] is not None:
+            k, exn, msg = run["exc"]
+            rep.violation(sub + "accepts", (run["where"] or callee) if k < len(seq) else "VolumeSubdivision.__exit__", "raises:" + exn, cls, det(msg=msg)); continue
+        if [(x["V"], x["C"], x["F"]) for x in run["states"]] != [(x["V"], x["C"], x["F"]) for x in runA["states"]]:
+            rep.violation(sub + "independent_elements", callee, "mismatch:operations_depend_on_the_completion_switch", cls, det()); continue
+        Rm = run["ed"].mesh
+        if type(Rm) is not cx.M.mesh.VolumeMesh:
+            rep.violation(sub + "hands_back_a_mesh", callee, "mismatch:type", cls, det(got=type(Rm).__name__)); continue
+        o = call(_snap_vol, Rm)
+        if not o.ok:
+            rep.violation(sub + "valid_mesh", callee, "mismatch:containers_unreadable", cls, det(msg=o.msg)); continue
+        s = o.value
+        if s["V"] != sresA["V"] or s["C"] != sresA["C"]:
+            rep.violation(sub + "independent_elements", "VolumeSubdivision.__exit__", "mismatch:elements_depend_on_the_completion_switch", cls, det()); continue
+        raw = run["states"][-1]
+        if _pairs(s["E"]) != _pairs(raw["E"]):
+            rep.violation(sub + "edges_handed_back", "VolumeSubdivision.__exit__", "mismatch:edges_added_or_lost_on_exit", cls,
+                          det(n_got=len(s["E"]), n_written=len(raw["E"]))); continue
+        if not faces_on and _triples(s["F"]) != _triples(raw["F"]):
+            rep.violation(sub + "faces_handed_back", "VolumeSubdivision.__exit__", "mismatch:faces_added_or_lost_on_exit", cls,
+                          det(n_got=len(s["F"]), n_written=len(raw["F"]))); continue
+        bad = _validity_volume(s, faces_completed=faces_on, edges_completed=False)
+        if bad:
+            rep.violation(sub + "valid_mesh", callee, "mismatch:" + bad[0], cls, det(labels=bad, result_cells=s["C"], result_faces=s["F"][:16])); continue
+        n = len(s["V"])
+        sides = set(tuple(sorted(e)) for c in s["C"] for e in itertools.combinations(c, 2))
+        half = _half_written(range(len(st["V"]), n), sides, set(_pairs(s["E"])))
+        if half:
+            rep.violation(sub + "edges_written_together", callee, "mismatch:new_vertex_with_some_but_not_all_of_its_edges", cls, det(half_written=half[:3])); continue
+        if not faces_on:
+            new = n - 1
+            before, got = _triples(st["F"]), _triples(s["F"])
+            tris = set(tuple(sorted(c[:k] + c[k + 1:])) for c in s["C"] for k in range(4))
+            all_new = sorted(t for t in tris if new in t)
+            if kind == "FSPLIT":
+                t = tuple(sorted(st["F"][arg]))
+                kept = list(before); kept.remove(t)
+                minimal = sorted(kept + [tuple(sorted((t[0], t[1], new))), tuple(sorted((t[1], t[2], new))), tuple(sorted((t[0], t[2], new)))])
+                wants = [minimal, sorted(kept + all_new)]
+            else:
+                wants = [before, sorted(before + all_new)]
+            if got not in wants:
+                rep.violation(sub + "faces_written_as_documented", callee, "mismatch:face_list_half_written", cls,
+                              det(faces_before=[list(f) for f in before], faces_handed_back=[list(f) for f in got])); continue
+        rep.count("config_off:volume_blocks")
+        rep.outcome("config_off:" + kind, label + (":faces_complete" if set(_triples(s["F"])) == set(tuple(sorted(c[:k] + c[k + 1:])) for c in s["C"] for k in range(4)) else ":faces_left_to_the_completion_step"))
+        if Rm is run["m"]:
+            rep.outcome("config.vol_input_object", "is_the_result")
+        else:
+            so = call(_snap_vol, run["m"])
+            if not so.ok or (so.value != s and so.value != run["pre"]):
+                rep.violation(sub + "input_object", "VolumeSubdivision.__exit__", "side_effect:input_half_updated", cls, det())
+
+
+def _check_volume_abandoned(cx: VolCtx, known):
+    """volume blocks left by an exception after 0, 1 or 2 operations (see _check_surface_abandoned)"""
+    rep = cx.rep
+    sub = "C13.vol.abandoned_block."
+    for seq in _abandon_prefixes(known, (), V_CALLEE):
+        if seq:
+            sres = known[seq]["res"]
+        else:
+            r0 = _run_vol_block(cx, (), False)
+            o0 = call(_snap_vol, r0["ed"].mesh)
+            if r0["exc"] is not None or not o0.ok:
+                rep.violation("C13.vol.hands_back_a_mesh", "VolumeSubdivision.__exit__", "raises:" + (r0["exc"][1] if r0["exc"] else o0.exc),
+                              "block_without_operation", cx.detail(seq)); continue
+            sres = o0.value
+        for mode in (("caller", "CFAN", "FSPLIT") if len(seq) < 2 else ("caller", "FSPLIT")):
+            done = set()
+            label = ("caller_exception" if mode == "caller" else "rejected_argument") + ":" + ("no_edit" if not seq else "after_edits") + ":"
+            for queried in (False, True):
+                rep.traces += 1; rep.transitions += 1
+                run = _run_vol_block(cx, seq, queried, leave=mode)
+                left = run["left"]
+                if left["mode"] is None:
+                    raise AssertionError(f"replayed prefix raised on {cx.name} {seq}: {run['exc']}")
+                extra = {"block_left_by": "raise in the caller's code" if mode == "caller" else f"{V_CALLEE[mode]}({left.get('arg')}) - no such element",
+                         "exception": left["exc"], "connectivity_queried_before": queried}
+                if left["mode"] == "accepted":
+                    rep.outcome("leave:" + mode, "accepted"); rep.count("abandoned:nonexistent_index_accepted"); continue
+                rep.outcome("leave:" + mode, "raise:" + str(left["exc"]))
+                rep.count("abandoned:volume_blocks")
+                rep.flag("abandoned_volume_%d_%s" % (len(seq), "caller" if mode == "caller" else "rejected"))
+                if run["exc"] is None:
+                    rep.count("abandoned:exception_did_not_propagate")
+                elif not left["propagated"]:
+                    rep.violation(sub + "hands_back_a_mesh", "VolumeSubdivision.__exit__", "raises:" + run["exc"][1], label + ("queried_before" if queried else "not_queried"),
+                                  cx.detail(seq, msg=run["exc"][2], **extra)); continue
+                done = _check_volume_input_object(cx, seq, run, sres, queried, done, sub=sub, cls_prefix=label, extra=extra)
 
 
 def _vol_args(st, prev, all_args):
@@ -883,6 +1255,9 @@ def explore_volume(cx: VolCtx):
                 if after is not None:
                     sres = _check_volume_result(cx, seq2, runA["ed"].mesh, obs, Pex, callee, cls)
                     doneA = _check_volume_input_object(cx, seq2, runA, sres, False)
+                    after["res"] = sres
+                    if sres is not None and not _validity_volume(sres):
+                        _check_volume_config_off(cx, seq2, st, runA, sres, callee)
             runB = _run_vol_block(cx, seq2, True)
             rep.evaluations += 1
             same = (runB["exc"] == runA["exc"]) and [(s["V"], s["C"]) for s in runB["states"]] == [(s["V"], s["C"]) for s in runA["states"]]
@@ -905,6 +1280,7 @@ def explore_volume(cx: VolCtx):
                     rep.case((cx.name, cx.variant, key))
                     if len(seq2) < cx.depth:
                         frontier.append(seq2)
+    _check_volume_abandoned(cx, known)
     rep.count("volume_inputs")
     if len(cx.cells) >= 2:
         rep.flag("tet_shared_face")
@@ -982,6 +1358,40 @@ def explore_polyline(M, n, edges, depth, rep: Report):
     while frontier:
         seq = frontier.pop(0)
         st = known[seq]
+        # ---- a call that is left by an exception: the index of an edge that does not exist (== number of edges). Nothing
+        #      promises the rejection; if it is rejected the polyline passed in must be unchanged (there is no result it
+        #      could be equal to) and its connectivity answers must describe its own edge list
+        reported_rej = set()
+        for queried in (False, True):
+            rep.traces += 1; rep.transitions += 1
+            pl = build()
+            if queried:
+                _line_oracle_fails(pl, s0, Report())
+            for i, ei in enumerate(seq):
+                o = call(split_edge, pl, ei)
+                if not o.ok or _snap_line(o.value)["V"] != known[seq[:i + 1]]["V"]:
+                    raise AssertionError(f"replay divergence on {name} {seq}")
+                pl = o.value
+            if queried and seq:
+                _line_oracle_fails(pl, known[seq], Report())
+            o = call(split_edge, pl, len(st["E"]))
+            if o.ok:
+                rep.outcome("split_edge:no_such_edge", "accepted"); rep.count("abandoned:nonexistent_index_accepted"); continue
+            rep.outcome("split_edge:no_such_edge", "raise:" + o.exc)
+            rep.count("abandoned:polyline_calls")
+            cls = f"rejected_argument:{'no_edit' if not seq else 'after_edits'}:{'queried_before' if queried else 'not_queried'}"
+            det = dict(base, sequence=list(seq), rejected_call=f"split_edge(polyline, {len(st['E'])}) - no such edge", exception=o.exc)
+            osn = call(_snap_line, pl)
+            rep.evaluations += 2
+            if not osn.ok or osn.value != {"V": st["V"], "E": st["E"]}:
+                if not (queried and "input_object" in reported_rej):
+                    reported_rej.add("input_object")
+                    rep.violation("C13.polyline.rejected_call.input_object", callee, "side_effect:input_half_updated", cls, det)
+                continue
+            f2 = _line_oracle_fails(pl, osn.value, rep)
+            if f2 and not (queried and "input_caches" in reported_rej):
+                reported_rej.add("input_caches")
+                rep.violation("C13.polyline.rejected_call.input_caches", callee, "mismatch:stale_connectivity", cls, dict(det, **_summary(f2)))
         for e in range(len(st["E"])):
             seq2 = seq + (e,)
             after = None
@@ -1120,4 +1530,30 @@ def finish(tier, rep: Report):
         fails.append(f"expected 27 complexes x 2 orientations, got {rep.counters.get('volume_inputs')}")
     if rep.counters.get("polyline_inputs") != 71:
         fails.append(f"expected 71 graphs with an edge on 2..4 vertices, got {rep.counters.get('polyline_inputs')}")
+    # ---- configuration dimension (completion switches off)
+    for c in ("config_off:surface_blocks", "config_off:volume_blocks", "config_off:surface_connectivity_judged_edge_list_covers_every_side"):
+        if not rep.counters.get(c):
+            fails.append("nothing counted for " + c)
+    for kind in ("T", "TF", "FAN", "L", "Q3", "S6", "CFAN", "FSPLIT"):
+        if not rep.outcomes.get("config_off:" + kind):
+            fails.append(f"operation {kind} was never the last of a block run with the completion switches off")
+    for kind in ("T", "TF"):      # quads leave a side to the completion step, pentagons (fans) do not
+        if len(rep.outcomes.get("config_off:" + kind, ())) < 2:
+            fails.append(f"completion off: operation {kind} produced a single distinct outcome")
+    if len(rep.outcomes.get("config_off:FSPLIT", ())) < 2:
+        fails.append("completion off: both switch settings of the volume blocks should have been observed")
+    # ---- history dimension (blocks left by an exception)
+    for fam in ("surface", "volume"):
+        for k in (0, 1, 2):
+            for how in ("caller", "rejected"):
+                if f"abandoned_{fam}_{k}_{how}" not in rep.flags:
+                    fails.append(f"no {fam} block was left by an exception ({how}) after {k} operation(s)")
+        for state in ("unchanged", "equal_to_result"):
+            if state not in rep.outcomes.get(("surf" if fam == "surface" else "vol") + ".abandoned_block.input_object", ()):
+                fails.append(f"abandoned {fam} blocks: the object passed in was never '{state}'")
+    if not rep.counters.get("abandoned:polyline_calls"):
+        fails.append("no split_edge call was rejected")
+    c = "abandoned:nonexistent_index_accepted"
+    if rep.counters.get(c):
+        fails.append(f"{c} = {rep.counters[c]}: the unchanged library rejects an index == number of elements; these blocks were not judged")
     return fails
